@@ -169,7 +169,7 @@ def run(res, rng, tier, prop='C04'):
         res.corr_bad.append(dict(error=err))
     for i in bad:
         c, o, t = terms[i]
-        res.corr_bad.append(dict(case=c, obs=strip(o), model_agrees_on='[add outcomes; structure; statistics; answers; structure after merge; answers after merge] = ' + why.get(i, '?'),
+        res.corr_bad.append(dict(case=c, obs=strip(o), model_agrees_on='[add outcomes; structure; statistics; answers; structure after merge; answers after merge; public answers; public answers after merge] = ' + why.get(i, '?'),
                                  note='Coq model of Add/Chunks/MergeChunks/write/read disagrees with the implementation'))
     res.extra['traces_validated_against_impl'] = len(terms) - len(bad)
     res.rule = ('a case = one index kind (BAI / CSI with (minShift, depth) in 1..20 x 1..8, v1/v2 / tabix), a coordinate-sorted record list on 1-6 references '
@@ -209,17 +209,17 @@ TRUSTED = [
     'axioms: none (Print Assumptions: Closed under the global context)',
 ]
 ASSUME = [
-    'bin_containment (Section hypothesis of bai_complete/csi_complete/tabix_complete): the bin of an interval is among the bins enumerated for any overlapping interval in range — property C16',
-    'merge strategy preserves coverage and order (Section hypothesis of the *_merged theorems) — property C17',
     'records have Start < End (an alignment without reference length is outside the theorems; the check treats it as one base)',
-    'queries satisfy 0 <= beg < end <= 2^29 (resp. the CSI limit)',
+    'queries satisfy 0 <= beg < end <= 2^29 (resp. the CSI limit 2^(minShift+3*depth)); CSI geometries with depth <= 10 and minShift+3*depth <= 62',
+    'the strategy functions are the left-to-right merges of Model/Index.v (compared with the implementation each run); their covering property is proved there, not taken from C17',
 ]
 
 CLAIM = dict(
-    text='Machine-checked proof (Coq 8.16.1) over an executable model of internal.Index / csi.Index / tabix.Index (Add with all exits, sort, Chunks with the tile-pruning loop, MergeChunks): '
-         'for every coordinate-sorted in-range record list with a monotone chunk layout, Add never fails or panics and every query returns a chunk covering each overlapping record, also after a coverage-preserving merge strategy and after write/read; '
-         'the model is evaluated inside Coq against the implementation on every generated case, and a brute-force overlap oracle (plus bam.Iterator over a real BAM) judges the implementation directly. '
-         'BAI: full statement incl. any sequence of sort/query/MergeChunks states (bai_complete, bai_complete_merged); tabix and CSI (every minShift/depth): index as built (tabix_complete_partial, csi_complete_partial).',
-    note='Section hypotheses: bin containment (C16), strategy coverage (C17). Trusted: Coq kernel, the hand-written model (validated by correspondence each run), harness/generators. No axioms.',
+    text='Machine-checked proof (Coq 8.16.1) over an executable model of internal.Index / csi.Index / tabix.Index (Add with all exits, sort, Chunks with the tile-pruning loop, MergeChunks, the four strategies): '
+         'for every coordinate-sorted in-range record list with a monotone chunk layout, Add never fails or panics and every query returns a chunk covering each overlapping record; error/empty answers imply no overlap. '
+         'BAI: also in every state reached by sort / queries / MergeChunks with a covering strategy and after the byte-level WriteIndex/ReadIndex round trip (bai_complete, bai_complete_merged, strategies_cover, bai_complete_after_write_read); '
+         'CSI for every geometry with depth <= 10, minShift+3*depth <= 62 and tabix: built index and all sort/query/merge states (csi_complete, csi_complete_merged_partial, tabix_complete, tabix_complete_after_write_read; only the CSI write/read state is validated, not proved). '
+         'Bin containment is C16\'s theorem transported to this model; no premises, no axioms. The model is evaluated inside Coq against the implementation on every generated case; a brute-force overlap oracle (plus bam.Iterator over a real BAM) judges the implementation.',
+    note='Trusted: Coq kernel, the hand-written model (validated by correspondence each run), harness/generators/oracle.',
     technique='Coq proof over hand-written executable model + vm_compute correspondence + brute-force oracle',
     design='6/C04')
